@@ -22,6 +22,7 @@ import (
 
 	martian "github.com/google/martian/v3"
 	mlog "github.com/google/martian/v3/log"
+	"github.com/google/martian/v3/trafficshape"
 
 	"verifharness/internal/tunx"
 	"verifharness/internal/vh"
@@ -97,7 +98,13 @@ type tcase struct {
 	Seg         string `json:"seg"`   // proxy-side read segmentation: none | small | mixed
 	Chunk       string `json:"chunk"` // write profile: tiny | small | mixed | large
 	DSHead      string `json:"ds_head"`
-	Race        bool   `json:"race,omitempty"`
+	// ConnKind: what kind of connections the proxy gets. "": the transport's own
+	// (half-closable); nocw-dial / nocw-listener / nocw-both: wrapped so that only
+	// the net.Conn methods are visible (no CloseWrite, ReadFrom, WriteTo) on the
+	// dial side, the accept side or both; ts-listener: trafficshape.Listener
+	// around the TCP listener (its Conn cannot half-close either)
+	ConnKind string `json:"conn_kind,omitempty"`
+	Race     bool   `json:"race,omitempty"`
 }
 
 const targetHost = "target.c04.example:443"
@@ -285,6 +292,9 @@ func genHalfUpload(r *vh.Run, stream string, g int, transport string, race bool)
 		max = 6 << 20
 	}
 	up := 200000 + rng.Intn(max-200000)
+	if g%4 == 3 && up < 1200000 {
+		up = 1200000 + rng.Intn(1300000) // a fixed share of uploads beyond 1 MiB in every run
+	}
 	small := rng.Intn(3000)
 	if c.Closer == "target" {
 		c.TSize, c.CSize = small, up
@@ -294,6 +304,47 @@ func genHalfUpload(r *vh.Run, stream string, g int, transport string, race bool)
 	if rng.Intn(3) == 0 {
 		c.Early = 1 + rng.Intn(1000)
 	}
+	return c
+}
+
+// genConnKind: tunnels over connections the proxy cannot half-close (wrappers
+// that hide everything but net.Conn on the dial side, the accept side or both;
+// a trafficshape listener). Kind, closer and timing are a fixed function of g.
+func genConnKind(r *vh.Run, stream string, g int, transport string, race bool) tcase {
+	rng := r.Rng(stream, g)
+	c := tcase{Kind: "tunnel", Stream: stream, Idx: g, Transport: transport, Race: race, Split: "one", PipeCap: 65536}
+	if transport == "pipe" {
+		c.ConnKind = []string{"nocw-dial", "nocw-listener", "nocw-both"}[g%3]
+		c.CloseAt = []string{"after", "before", "during"}[(g/12)%3]
+	} else {
+		c.ConnKind = []string{"nocw-dial", "ts-listener"}[g%2]
+		// no "during" on TCP: closing a connection whole while its peer still
+		// streams is a reset, which may destroy bytes TCP itself had accepted
+		c.CloseAt = []string{"after", "before"}[(g/8)%2]
+	}
+	c.Closer = []string{"client", "target"}[(g/3)%2]
+	if transport != "pipe" {
+		c.Closer = []string{"client", "target"}[(g/2)%2]
+	}
+	c.Route = []string{"direct", "downstream"}[(g/6)%2]
+	if transport != "pipe" {
+		c.Route = []string{"direct", "downstream"}[(g/4)%2]
+	}
+	c.CloseMode = []string{"full", "half"}[rng.Intn(2)]
+	if transport == "tcp" && c.CloseAt != "after" {
+		c.CloseMode = "half"
+	}
+	c.Seg = []string{"none", "small", "mixed"}[rng.Intn(3)]
+	c.Chunk = []string{"small", "mixed", "large"}[rng.Intn(3)]
+	c.DSHead = dsHeads[(g/5)%len(dsHeads)]
+	c.CSize, c.TSize = drawSize(rng, 300000), drawSize(rng, 300000)
+	if rng.Intn(3) == 0 {
+		c.Early = 1 + rng.Intn(3000)
+	}
+	if rng.Intn(3) == 0 {
+		c.TargetFirst = 1 + rng.Intn(2000)
+	}
+	c.PingPong = rng.Intn(3)
 	return c
 }
 
@@ -762,6 +813,14 @@ func (w *world) serveTarget(conn net.Conn) {
 	e.recvLoop(readSize(e.rrng, c))
 }
 
+// plainConn shows only the net.Conn methods of the connection it wraps.
+type plainConn struct{ net.Conn }
+
+func (c tcase) hidesDial() bool { return c.ConnKind == "nocw-dial" || c.ConnKind == "nocw-both" }
+func (c tcase) hidesAccept() bool {
+	return c.ConnKind == "nocw-listener" || c.ConnKind == "nocw-both" || c.ConnKind == "ts-listener"
+}
+
 func (w *world) dialPipe(network, addr string) (net.Conn, error) {
 	atomic.AddInt32(&w.dials, 1)
 	want := targetHost
@@ -778,6 +837,9 @@ func (w *world) dialPipe(network, addr string) (net.Conn, error) {
 	w.pxTarget = px
 	targetMu.Unlock()
 	go w.serveTarget(tg)
+	if w.c.hidesDial() {
+		return plainConn{px}, nil
+	}
 	return px, nil
 }
 
@@ -841,6 +903,9 @@ func runTunnel(r *vh.Run, c tcase, budget *tunx.Budget) {
 	// --- set up the network
 	if c.Transport == "pipe" {
 		pl = tunx.NewListener("10.0.0.1:8080")
+		if c.hidesAccept() {
+			pl.Wrap = func(cn net.Conn) net.Conn { return plainConn{cn} }
+		}
 		w.lis = pl
 		p.SetDial(w.dialPipe)
 		if c.Route == "downstream" {
@@ -853,6 +918,18 @@ func runTunnel(r *vh.Run, c tcase, budget *tunx.Budget) {
 			return
 		}
 		w.lis = l
+		if c.ConnKind == "ts-listener" {
+			w.lis = trafficshape.NewListener(l)
+		}
+		if c.hidesDial() {
+			p.SetDial(func(network, addr string) (net.Conn, error) {
+				cn, err := net.Dial(network, addr)
+				if err != nil {
+					return nil, err
+				}
+				return plainConn{cn}, nil
+			})
+		}
 		proxyAddr = l.Addr().String()
 		tl, err := net.Listen("tcp", "127.0.0.1:0")
 		if err != nil {
@@ -1233,7 +1310,10 @@ func runTunnel(r *vh.Run, c tcase, budget *tunx.Budget) {
 	// an end that only half-closed kept reading: when the peer in turn finishes
 	// sending and closes in an orderly way, that end must have received all of
 	// the peer's bytes by the time it observes end-of-stream
-	if c.CloseMode == "half" && sawEOS && !stalled && A.Term() != 0 && B.werr.Load() == nil && A.Recv() != bFinal {
+	// (not when the proxy's connection toward the peer cannot half-close: passing the
+	// first end-of-stream on then means closing that connection altogether)
+	towardPeerHalfClosable := !(c.Closer == "client" && c.hidesDial()) && !(c.Closer == "target" && c.hidesAccept())
+	if c.CloseMode == "half" && towardPeerHalfClosable && sawEOS && !stalled && A.Term() != 0 && B.werr.Load() == nil && A.Recv() != bFinal {
 		wit := w.state()
 		r.ViolationCase(c, "C04:bytes-before-eof:"+dirBA, fmt.Sprintf("%s had half-closed and kept reading; the peer then sent %d bytes and closed, but end-of-stream (term=%d) was observed after %d of them", c.Closer, bFinal, A.Term(), A.Recv()), wit)
 	}
@@ -1302,6 +1382,10 @@ func runTunnel(r *vh.Run, c tcase, budget *tunx.Budget) {
 		big = bFinal
 	}
 	r.Count("cases_target_speaks_first_"+tf, 1)
+	if c.ConnKind != "" {
+		r.Count("cases_with_connections_that_cannot_half_close", 1)
+		split = c.ConnKind + "|" + split
+	}
 	r.Class(strings.Join([]string{c.Transport, c.Route, "early=" + earlyBucket(c.Early), split, "closer=" + c.Closer, c.CloseMode, timing,
 		"max=" + sizeBucket(int(big))}, "|"))
 	if c.Idx%40 == 3 {
@@ -1585,6 +1669,25 @@ func run(r *vh.Run, batch string) {
 			tr = []string{"pipe", "tcp"}[j%2]
 		}
 		c := genEarlyHalf(r, "c04-earlyhalf-"+kind, k*ne+j, tr, race)
+		r.Case(c)
+		runTunnel(r, c, budget)
+	}
+	// connections that cannot half-close
+	nk := 0
+	switch kind {
+	case "pipe":
+		nk = r.Pick(12, 36)
+	case "tcp":
+		nk = r.Pick(8, 24)
+	case "race":
+		nk = 4
+	}
+	for j := 0; j < nk; j++ {
+		tr := kind
+		if kind == "race" {
+			tr = []string{"pipe", "tcp"}[j%2]
+		}
+		c := genConnKind(r, "c04-connkind-"+tr, k*nk+j, tr, race)
 		r.Case(c)
 		runTunnel(r, c, budget)
 	}
